@@ -28,7 +28,8 @@ def main():
     kf = json.loads(rd('known_findings.json'))['findings']
     seeded = json.loads(rd('seeded/RESULTS.json')) if os.path.exists(os.path.join(ROOT, 'seeded/RESULTS.json')) else {}
     mutants = json.loads(rd('design/mutants.json')) if os.path.exists(os.path.join(ROOT, 'design/mutants.json')) else {}
-    out = [rd('design/preface.md'), rd('design/head_0_2.md')]
+    pre = rd('design/preface.md').replace('{N_FIXED}', str(sum(1 for e in kf if e['status'] == 'fixed'))).replace('{N_KNOWN}', str(sum(1 for e in kf if e['status'] == 'known'))).replace('{N_SEEDED}', str(len(seeded)))
+    out = [pre, rd('design/head_0_2.md')]
 
     # ------------------------------------------------------------------ section 3: per property, as built
     out.append('## 3. Per-property decision procedures (as built)\n\n'
